@@ -8,6 +8,7 @@ import (
 	"go/constant"
 	"go/token"
 	"go/types"
+	"strings"
 
 	"golang.org/x/tools/go/ssa"
 )
@@ -325,13 +326,13 @@ func (w *pathWalker) run(b *ssa.BasicBlock, start int, p *Path, on map[*ssa.Basi
 			for i := range fAtoms {
 				fAtoms[i].Env = p.Env
 			}
-			if !contradicts(p.Atoms, tAtoms) {
+			if !w.contradicts(p.Atoms, tAtoms) {
 				q := p.fork()
 				q.Atoms = append(q.Atoms, tAtoms...)
 				q.Last = tAtoms
 				w.next(b, b.Succs[0], q, on, k)
 			}
-			if !contradicts(p.Atoms, fAtoms) {
+			if !w.contradicts(p.Atoms, fAtoms) {
 				q := p.fork()
 				q.Atoms = append(q.Atoms, fAtoms...)
 				q.Last = fAtoms
@@ -577,6 +578,161 @@ func (c *Ctx) inCycle(f *ssa.Function) bool {
 	r := visit(f)
 	c.cycleMemo[f] = r
 	return r
+}
+
+// contradicts (walker): as contradicts, but facts about the result of a call that has effects (the lexer's
+// rune read, …) are not used for pruning — two such calls have the same key and need not return the same
+// value, so "contradictory" facts about them can both hold.
+func (w *pathWalker) contradicts(have, add []Atom) bool {
+	for _, a := range add {
+		for _, h := range have {
+			if !atomsContradict(h, a) {
+				continue
+			}
+			if !w.c.mentionsImpure(a) && !w.c.mentionsImpure(h) {
+				return true
+			}
+			// both speak of the result of a call with effects: the contradiction stands only if it is the very
+			// same call instruction(s) in both (one execution, one value)
+			ca, ch := w.c.impureCallsIn(a.Src, a.Env, 0), w.c.impureCallsIn(h.Src, h.Env, 0)
+			if len(ca) > 0 && sameCalls(ca, ch) {
+				return true
+			}
+		}
+	}
+	return false
+}
+
+func sameCalls(a, b []*ssa.Call) bool {
+	if len(a) != len(b) {
+		return false
+	}
+	for _, x := range a {
+		found := false
+		for _, y := range b {
+			if x == y {
+				found = true
+			}
+		}
+		if !found {
+			return false
+		}
+	}
+	return true
+}
+
+// impureCallsIn: the calls of functions with effects that value v is computed from (through the path
+// environment), as instruction identities.
+func (c *Ctx) impureCallsIn(v ssa.Value, e *env, depth int) []*ssa.Call {
+	if v == nil || depth > 8 {
+		return nil
+	}
+	v, e = c.resolveE(v, e)
+	var out []*ssa.Call
+	add := func(xs []*ssa.Call) {
+		for _, x := range xs {
+			dup := false
+			for _, y := range out {
+				if x == y {
+					dup = true
+				}
+			}
+			if !dup {
+				out = append(out, x)
+			}
+		}
+	}
+	if call, ok := v.(*ssa.Call); ok {
+		if f := call.Call.StaticCallee(); f != nil && c.impureFns()[f] {
+			out = append(out, call)
+		}
+	}
+	if in, ok := v.(ssa.Instruction); ok {
+		if _, isPhi := v.(*ssa.Phi); !isPhi {
+			for _, op := range in.Operands(nil) {
+				if *op != nil {
+					add(c.impureCallsIn(*op, e, depth+1))
+				}
+			}
+		}
+	}
+	return out
+}
+
+// impureFns: module functions that (transitively) write memory other than their own locals.
+func (c *Ctx) impureFns() map[*ssa.Function]bool {
+	if v, ok := c.roles["impure"]; ok {
+		return v.(map[*ssa.Function]bool)
+	}
+	out := map[*ssa.Function]bool{}
+	for _, f := range c.Funcs {
+		if !inModule(f) {
+			continue
+		}
+		for _, b := range f.Blocks {
+			for _, in := range b.Instrs {
+				switch x := in.(type) {
+				case *ssa.Store:
+					base := x.Addr
+					for {
+						switch y := base.(type) {
+						case *ssa.FieldAddr:
+							base = y.X
+							continue
+						case *ssa.IndexAddr:
+							base = y.X
+							continue
+						}
+						break
+					}
+					if al, ok := base.(*ssa.Alloc); !ok || al.Heap {
+						if _, isAl := base.(*ssa.Alloc); !isAl {
+							out[f] = true
+						}
+					}
+				case *ssa.MapUpdate:
+					if _, ok := x.Map.(*ssa.MakeMap); !ok {
+						out[f] = true
+					}
+				}
+			}
+		}
+	}
+	for changed := true; changed; {
+		changed = false
+		for _, f := range c.Funcs {
+			if out[f] || !inModule(f) {
+				continue
+			}
+			for _, b := range f.Blocks {
+				for _, in := range b.Instrs {
+					if call, ok := in.(ssa.CallInstruction); ok {
+						if sc := staticCallee(call); sc != nil && out[sc] {
+							out[f] = true
+							changed = true
+						}
+					}
+				}
+			}
+		}
+	}
+	c.roles["impure"] = out
+	var names []string
+	for f := range out {
+		names = append(names, fnName(f)+"(")
+	}
+	c.roles["impureNames"] = names
+	return out
+}
+
+func (c *Ctx) mentionsImpure(a Atom) bool {
+	c.impureFns()
+	for _, n := range c.roles["impureNames"].([]string) {
+		if strings.Contains(a.Subj, n) || strings.Contains(a.Val, n) {
+			return true
+		}
+	}
+	return false
 }
 
 // contradicts: would adding `add` to `have` be unsatisfiable by the simple syntactic rules?
